@@ -334,5 +334,39 @@ def run_shards(prop, tier, seed, nshards, extra_args=()):
         shutil.rmtree(tmpdir, ignore_errors=True)
 
 
+def fuzz_available():
+    return os.path.isdir(os.path.join(VERIF_DIR, ".deps", "atheris"))
+
+
+def run_fuzz(prop, seed, nprocs, runs):
+    """Coverage-guided stage (vf/fuzz.py): nprocs atheris children, each a libFuzzer campaign of `runs` executions of the
+    property's Hypothesis test through fuzz_one_input; returns their Ctx dumps."""
+    import tempfile
+
+    tmpdir = tempfile.mkdtemp(prefix="vf_fuzz_")
+    procs = []
+    try:
+        for k in range(nprocs):
+            out = os.path.join(tmpdir, "fuzz%d.json" % k)
+            cmd = [sys.executable, "-B", "-m", "vf.fuzz", prop, str(runs), str(shard_seed(seed, 100 + k)), out]
+            procs.append((k, out, subprocess.Popen(cmd, cwd=VERIF_DIR, stdout=subprocess.PIPE,
+                                                   stderr=subprocess.PIPE, text=True)))
+        dumps = []
+        for k, out, p in procs:
+            so, se = p.communicate()
+            if p.returncode != 0 or not os.path.exists(out):
+                raise HarnessError("fuzz child %d failed rc=%s\n%s\n%s" % (k, p.returncode, so[-2000:], se[-4000:]))
+            with open(out) as fh:
+                dumps.append(json.load(fh))
+        return dumps
+    finally:
+        import shutil
+
+        for _, _, p in procs:
+            if p.poll() is None:
+                p.kill()
+        shutil.rmtree(tmpdir, ignore_errors=True)
+
+
 def fmt_exc(e):
     return "".join(traceback.format_exception(type(e), e, e.__traceback__))[-3000:]
